@@ -37,7 +37,7 @@ var hostileTemplates = []string{
 	"i=0; while i<{n} { i=i+1; if 1 { continue } }; i", "i=0; while i<{n} { i=i+1; if i>1 { break } }; i", "i=0; while i<{n} { i=i+1; if 1 { if 1 { continue } } }",
 	"while 1 { }", "while 1 { x = 1 }", "i=0; while i<{n} { i=i+1 }", "i=0; while i<{n} { i=i+1; j=0; while j<{n} { j=j+1 } }",
 	"{nestif}", "{nesttmpl}", "{nestparen}", "{nestarr}", "{longsum}", "{longlist}", "{nestfunc}", "{nestwhile}", "{nesthole}",
-	"^st力量{v}", "^st 力量+{v}", "^st &手枪={v}", "^st 力量*{v}:{v}", "^st '力量 2':{v}", "^st a:b:{v}", "^st力量{v}敏捷{v}",
+	"^st力量{v}", "^st力量+{v}", "^st&手枪={v}", "^st力量*{v}:{v}", "^st'力量 2':{v}", "^sta:b:{v}", "^st力量{v}敏捷{v}",
 	"// #EnableDice wod true\n{v}a{v}", "// #EnableDice coc false\nb{v}", "// comment\n{v}",
 	"return {v}", "break", "continue", "if {v} { {v} } else { {v} }", "if {v} {  }", "func {v}() {}", "else", "if", "func", "while",
 }
